@@ -49,7 +49,11 @@ Inductive ehdr := EHdrErr | EHdrOk (roots : list bstr).
 Inductive horacle := OErr | OOk (roots : list bstr) (v : N) (redump_equal : bool).
 
 (* checksum of the delivered data (the harness computes the same) *)
-Definition cksum (d : bstr) : N := fold_left (fun a b => (a * 31 + b + 1) mod 4294967291) d 7.
+(* position-sensitive, no modular reduction (cheap in the VM): s1 = sum of (byte + 1),
+   s2 = sum of the running s1; the checksum is s1 + 2^32 * s2 *)
+Definition cksum (d : bstr) : N :=
+  let '(s1, s2) := fold_left (fun a b => let s1 := fst a + b + 1 in (s1, snd a + s1)) d (0, 0) in
+  s1 + 4294967296 * s2.
 
 Record case := C { c_base : N; c_mut : mut; c_tbl : list hentry; c_orc : horacle;
                    c_hdr : ehdr; c_items : list eitem;
